@@ -71,19 +71,26 @@ fn c11_run(bw: &mut BWorker, payload: &[u8], io: &mut WorkerIo) -> Vec<u8> {
 pub fn c11(tier: &str, seed: u64) -> i32 {
     let mut ctx = Ctx::new("C11", tier, seed, "model_checking");
     let thorough = ctx.thorough();
-    let mut maps = vec![std_map(KtId::Str, 8, 2, 5, seed, "a"), std_map(KtId::Str, 8, 2, 5, seed, "b"), std_map(KtId::Bytes, 8, 2, 5, seed ^ 9, "c")];
-    // maps a and b share their keys on purpose: the same key in two maps must stay two entries
+    // two maps of the same type whose names differ only after a dot, and one map of every other type;
+    // maps 0 and 1 share their keys on purpose: the same key in two maps must stay two entries
+    let mut maps = vec![
+        std_map(KtId::Str, 8, 2, 5, seed, "users.v1"),
+        std_map(KtId::Str, 8, 2, 5, seed, "users.v2"),
+        std_map(KtId::Bytes, 8, 2, 5, seed ^ 9, "c"),
+        std_map(KtId::U64, 8, 2, 8, seed, "d"),
+    ];
     maps[1].keys = maps[0].keys.clone();
-    if thorough {
-        maps.push(std_map(KtId::U64, 16, 2, 8, seed, "d"));
-    }
+    maps.push(std_map(KtId::I64, 8, 2, 8, seed, "e"));
+    maps.push(std_map(KtId::Vu64, 8, 2, 8, seed, "f.g"));
+    let _ = thorough;
     let mut letters = Vec::new();
     for mi in 0..maps.len() as u8 {
         for h in 0..5u8 {
             letters.push(Letter { kind: L_PUT, map: mi, handle: h, key: 0, val: mi % 2 });
             letters.push(Letter { kind: L_DEL, map: mi, handle: h, key: 0, val: 0 });
-            letters.push(Letter { kind: L_PUT, map: mi, handle: h, key: 1, val: 1 - mi % 2 });
         }
+        letters.push(Letter { kind: L_PUT, map: mi, handle: H_FIRST, key: 1, val: 1 - mi % 2 });
+        letters.push(Letter { kind: L_PUT, map: mi, handle: H_PARAMS, key: 1, val: 1 - mi % 2 });
     }
     letters.push(Letter { kind: L_DB_SYNC_ALL, map: 0, handle: 0, key: 0, val: 0 });
     let cfg = BCfg {
